@@ -87,6 +87,7 @@ EXTRA_MORE = {
     'C14': [('bounded-catch', _mk('catch_epochs', 'sources of 0..7 examples, all failing subsets up to size 3, single type / tuple / subclass, values and items, two epochs, reshuffled upstream over 4 epochs, lazy/eager/FilterException selection'))],
     'C15': [('bounded-split', _mk('split_exhaustive', 'all (n, k, i) with n <= 40 (300 thorough), k in [-1, n+2], shard indices {0, k-1, -1}'))],
     'C20': [('bounded-profiling-transparency', _mk('profiling_transparency', 'the scenario pipelines of 13 stage classes (every third one in the quick tier), all observations incl. indices [-n-2, n+2), wrapped vs unwrapped, hit counts of the top wrapper'))],
+    'C19': [('bounded-database', _mk('database', 'descriptions over 4 datasets (0..2 examples) and 6 aliases (overlapping ids, unknown and empty members), 0..3 datasets x 0..2 aliases, 1..3 merged parts, alias section in any part, extra top-level keys; requests: names, aliases, unknown, lists, repeats, after gc; DictDatabase, JsonDatabase, pickled JsonDatabase (every 4th description in the quick tier)'))],
     'C18': [('bounded-sort-groupby', _mk('sort_group', 'all value sequences over {0,1,2} up to length 5 (7 thorough), reverse on/off, incomparable payloads, scalar and tuple group ids'))],
 }
 
